@@ -434,6 +434,84 @@ def depth_stream(chk, R, rng, quick):
     return len(runs)
 
 
+def bank_stream(chk, R, rng, n):
+    """the inline-equivalence family inside #bankdef layouts: header bank, code bank with a non-zero #outp (address base,
+    8/16-bit addresses, #fill), optional third bank; macro calls and position-dependent block contents in the banks behind
+    the header; same oracle: implementation(macro program) = implementation(hand-inlined program) on bits and symbols
+    (size-static instruction sets; the extracted model has no banks, so there is no model run here)."""
+    cand = []
+    for i in range(2 * n):
+        bankdefs, header, banks, meta = c17_gen.gen_bank_layout(rng)
+        prog, inl, feats, depth = c17_gen.gen_macro_case(rng, size_static=True, keep_addr=False, unit=meta['unit'])
+        split = rng.range(0, len(prog.items))
+        b = 10 if (rng.chance(0.6) or depth >= 3) else 30
+        s, m = rng.chance(0.5), rng.chance(0.5)
+        mt = c17_gen.banked_text(prog.isa.text(), bankdefs, header, banks, prog.lines(), list(range(len(prog.items))), split)
+        it = c17_gen.banked_text(prog.isa.text(), bankdefs, header, banks, inl.lines(), inl.src_index, split)
+        cand.append(dict(prog=prog, inl=inl, feats=feats, depth=depth, b=b, s=s, m=m, mt=mt, it=it, meta=meta, banks=banks,
+                         layout=(bankdefs, header, banks, split), keep=rng.chance(0.15)))
+    ib_all = R.impl([(c['it'], c['b'], c['s'], c['m']) for c in cand])
+    cases, ib = [], []
+    for c, a in zip(cand, ib_all):
+        if len(cases) < n and (a.startswith("OK") or c['keep']):
+            cases.append(c); ib.append(a)
+    ia = R.impl([(c['mt'], c['b'], c['s'], c['m']) for c in cases])
+    dist = {"both_ok": 0, "both_rejected": 0, "bits16": 0, "filled": 0, "three_banks": 0, "position_dependent_block": 0}
+    retry = []
+    for c, a, b_ in zip(cases, ia, ib):
+        cm_, ci = asm_gen.canon_impl(a), asm_gen.canon_impl(b_)
+        c['cm'], c['ci'] = cm_, ci
+        rep = {"kind": "macro", "layout": "banks", "program": c['mt'], "inlined": c['it'], "budget": c['b'], "static_opt": c['s'], "matcher_opt": c['m'],
+               "impl_macro": a[:1500], "impl_inlined": b_[:1500]}
+        c['rep'] = rep
+        if cm_[0] not in GOOD or ci[0] not in GOOD:
+            chk.violation("implementation crashed or was inconsistent on a banked macro program (macro: %s, inlined: %s)" % (cm_[0], ci[0]), rep)
+            continue
+        dist["bits16"] += c['meta']['unit'] == 16
+        dist["filled"] += bool(c['meta']['fill'])
+        dist["three_banks"] += len(c['banks']) > 1
+        dist["position_dependent_block"] += bool(c['feats'] & {'local-label', 'pc-in-body', 'opnd-local-label'})
+        if ci[0] == "OK":
+            chk.nontriv(c['mt'])
+        if msig(cm_) == msig(ci):
+            dist["both_ok" if ci[0] == "OK" else "both_rejected"] += 1
+        elif cm_[0] == "ERR" and ci[0] == "OK":
+            retry.append(c)
+        else:
+            chk.violation("macro program and hand-inlined program are assembled differently inside a bank layout: macro %s, inlined %s" % (
+                str(msig(cm_))[:200], str(msig(ci))[:200]), rep)
+    if retry:
+        # more passes needed than the in-place program / finding F69: the macro program with the layout given
+        texts = []
+        for c in retry:
+            vals = symvals(c['ci'][3])
+            ends = {i: notes['end'] for (i, notes) in c['inl'].notes}
+            lines = []
+            for idx, (it_, line) in enumerate(zip(c['prog'].items, c['prog'].lines())):
+                pre = ['#addr 0x%x' % vals[it_[1]]] if it_[0] == 'label' and it_[1] in vals else []
+                post = ['#addr 0x%x' % vals[ends[idx]]] if idx in ends and ends[idx] in vals else []
+                lines.append('\n'.join(pre + [line] + post))
+            bankdefs, header, banks, split = c['layout']
+            c['hinted'] = c17_gen.banked_text(c['prog'].isa.text(), bankdefs, header, banks, lines, list(range(len(lines))), split)
+            texts.append((c['hinted'], 30, c['s'], c['m']))
+        ha = R.impl(texts)
+        r30 = R.impl([(c['mt'], 30, c['s'], c['m']) for c in retry])
+        for c, a, a30 in zip(retry, ha, r30):
+            ch, c30 = asm_gen.canon_impl(a), asm_gen.canon_impl(a30)
+            fid = known_class("asm_block_no_size_guess")
+            if c['b'] < 30 and msig(c30) == msig(c['ci']):
+                dist["needs_more_passes_than_inlined"] = dist.get("needs_more_passes_than_inlined", 0) + 1
+            elif ch[0] == "OK" and msig(ch) == msig(c['ci']) and fid:
+                chk.known(fid, "a macro program fails to converge where the hand-inlined program converges (right bits once the labels are pinned)")
+                dist["known_" + fid] = dist.get("known_" + fid, 0) + 1
+            else:
+                chk.violation("banked macro program fails although the hand-inlined program assembles", dict(c['rep'], hinted=c['hinted'], impl_hinted=a[:1500]))
+    chk.count("macro_in_bank_layouts", len(cases), **dist)
+    if cases:
+        chk.sample({"banked_macro_program": cases[0]['mt']})
+    return 2 * len(cases) + 2 * len(retry)
+
+
 BUDGETS = list(range(1, 17)) + [30]
 
 
@@ -445,9 +523,9 @@ def budget_stream(chk, quick=True, R=None, rng=None):
     R = R or asm_streams.Runner(("debug",))
     rng = rng or chk.rng.fork("c17-budget")
     progs = []
-    for i in range(60 if quick else 600):
+    for i in range(40 if quick else 600):
         progs.append(("unsettled-block", c17_gen.gen_budget_case(rng), rng.chance(0.5), rng.chance(0.5)))
-    want = 40 if quick else 400
+    want = 8 if quick else 300
     tries = 0
     while want and tries < 40 * (40 if quick else 400):
         tries += 1
@@ -497,12 +575,13 @@ def run(chk):
     R = asm_streams.Runner(("debug",))
     quick = chk.tier == "quick"
     rng = chk.rng.fork("c17")
-    t1, d1 = macro_stream(chk, R, rng.fork("macro"), 1500 if quick else 15000, True, "macro_size_static_isa")
-    t2, d2 = macro_stream(chk, R, rng.fork("cascade"), 500 if quick else 5000, False, "macro_cascading_isa")
+    t1, d1 = macro_stream(chk, R, rng.fork("macro"), 900 if quick else 15000, True, "macro_size_static_isa")
+    t2, d2 = macro_stream(chk, R, rng.fork("cascade"), 350 if quick else 5000, False, "macro_cascading_isa")
     t3 = directed_stream(chk, R, rng.fork("directed"), 12 if quick else 120)
-    t4, d4 = fn_stream(chk, R, rng.fork("fn"), 1200 if quick else 12000)
+    t4, d4 = fn_stream(chk, R, rng.fork("fn"), 700 if quick else 12000)
     t5 = depth_stream(chk, R, rng.fork("depth"), quick)
     t5 += budget_stream(chk, quick, R, rng.fork("budget"))
+    t5 += bank_stream(chk, R, rng.fork("banks"), 250 if quick else 4000)
     chk.cov["traces_validated_against_impl"] = t1 + t2 + t3 + t4 + t5
     chk.cov["disagreements_checked"] = d1 + d2 + d4
 
